@@ -228,7 +228,7 @@ func (m *machine) step(op ops.Op) (string, string) {
 	return "", ""
 }
 
-func genHeader(t *rapid.T, kind string) Header {
+func genHeader(t *rapid.T, kind string, names []string) Header {
 	h := Header{Kind: kind}
 	scratch := newTwin(kind)
 	defer scratch.close()
@@ -237,7 +237,7 @@ func genHeader(t *rapid.T, kind string) Header {
 		snap, _ := ops.SnapFS(scratch.setup)
 		tr := gen.TreeOf(snap)
 		k := rapid.SampledFrom([]string{"mkdir", "mkdir", "mkdirall", "writefile"}).Draw(t, "skind")
-		op := ops.Op{K: k, P: gen.Path(t, tr, gen.Names, 3, false, "sp"), Perm: 0o755}
+		op := ops.Op{K: k, P: gen.Path(t, tr, names, 3, false, "sp"), Perm: 0o755}
 		if k == "writefile" {
 			op.Perm = 0o644
 			op.Data = gen.Payload(t, 8, "sdata")
@@ -262,7 +262,8 @@ func aboveMount(w *twin, dir string) bool {
 
 func run(t *testing.T, kind string) {
 	vf.Check(t, kind, func(rt *rapid.T, rec *vf.Rec) {
-		h := genHeader(rt, kind)
+		names := gen.Alphabet(rt)
+		h := genHeader(rt, kind, names)
 		if kind == "mount" && vf.Known("C07:sub-above-mountpoint") {
 			probe := newTwin(kind)
 			above := aboveMount(probe, h.Dir)
@@ -279,6 +280,9 @@ func run(t *testing.T, kind string) {
 			rec.Failf(rt, "C07/"+kind+" sub:construct", "%s", prob)
 		}
 		rec.Class("dir-depth:" + fmt.Sprint(gen.Depth(h.Dir)))
+		if names[1] != "ab" {
+			rec.Class("exotic-alphabet")
+		}
 		if h.Dir != "." {
 			m.nontrivial = true
 		}
@@ -292,7 +296,7 @@ func run(t *testing.T, kind string) {
 				if len(tr.Dirs) == 0 {
 					tr.Dirs = []string{"."}
 				}
-				op := gen.Op(rt, tr, gen.Names, 3, false)
+				op := gen.Op(rt, tr, names, 3, false)
 				if kind == "osfs" && op.K == "readfile" {
 					// fine on os
 				}
